@@ -1,7 +1,10 @@
 """C20 — matplotlib plots draw the field's own numbers at their physical coordinates:
 generators, implementation runner (Agg backend, artists read back), Gallina encoding, oracle."""
 import colorsys
+import json
 import math
+import os
+import random
 from fractions import Fraction as F
 
 import matplotlib
@@ -227,10 +230,181 @@ def gen_vdims_arg(rng, fld):
     return rng.choice([[labels[0]], [labels[0], labels[-1], None], []])
 
 
+def narrow_dtype(rng, fld, p=0.25):
+    """store the field as float32 / float16 (values that these types hold exactly)"""
+    if rng.random() < p and fld["nvdim"] <= 3:
+        tot = fld["n"][0] * fld["n"][1] * fld["nvdim"]
+        fld["vals"] = [S(F(rng.randint(-40, 40), 8)) for _t in range(tot)]
+        fld["dtype"] = rng.choice(["float32", "float32", "float16"])
+
+
+def mk_step(rng, kind, fld, **kw):
+    base = dict(filter=None, symmetric=False, filled=False, vdims_arg=None, use_color=False, color_field=None,
+                lightness_field=None, clim=None, colorwheel=False)
+    base.update(kw)
+    mult = base.pop("mult") if "mult" in base else gen_mult(rng, fld)
+    return dict(kind=kind, field=fld, mult=mult, **base)
+
+
+def complete_vector(rng, tier, nv):
+    fld = gen_field(rng, tier, nvdim=nv)
+    labels = fld["vdims"] if fld["vdims"] is not None else ["x", "y", "z"][:nv]
+    other = [d for d in ["x", "y", "z", "a", "b", "w"] if d not in fld["dims"]][0]
+    fld["mapping"] = [[labels[k], (fld["dims"] + [other])[k]] for k in range(nv)]
+    return fld
+
+
+def known_ids():
+    try:
+        here = os.path.dirname(os.path.dirname(os.path.dirname(os.path.abspath(__file__))))
+        return {k.get("id") for k in json.load(open(os.path.join(here, "known_findings.json")))}
+    except Exception:  # noqa: BLE001
+        return set()
+
+
+TAG_INT = "C20-integer-field-refused"
+
+
+def directed_core():
+    """Seed-independent directed cases: identical in every run, tier and seed.  One small group per
+    mechanism that an earlier blind spot (seeded changes a1 ... e3) needed."""
+    rng = random.Random(424242)
+    cases = []
+
+    def fieldd(n, nv, vals=None, valid=None, p1=(0, 0), p2=None, dims=("x", "y"), units=("m", "m"), vdims=None,
+               mapping="complete", dtype=None, exact=True):
+        tot = n[0] * n[1]
+        if p2 is None:
+            p2 = (p1[0] + 2 * n[0], p1[1] + 3 * n[1])        # anisotropic cells 2 x 3, default multiplier 1
+        if vals is None:
+            vals = [F(rng.choice([-1, 1]) * rng.randint(1, 40), 8) for _t in range(tot * nv)]
+        if valid is None:
+            valid = [(t % 3) != 1 for t in range(tot)]       # invalid cells in every row pattern
+        labels = vdims if vdims is not None else (["x", "y", "z"][:nv] if nv > 1 else None)
+        if mapping == "complete":
+            other = [d for d in ["x", "y", "z", "a", "b", "w"] if d not in dims][0]
+            mapping = None if nv == 1 else [[labels[k], (list(dims) + [other, None])[k]] for k in range(nv)]
+        fd = dict(exact=exact, p1=[S(x) for x in p1], p2=[S(x) for x in p2], n=list(n), dims=list(dims),
+                  units=list(units), nvdim=nv, vdims=vdims, mapping=mapping, vals=[S(v) for v in vals],
+                  valid=list(valid))
+        if dtype:
+            fd["dtype"] = dtype
+        return fd
+
+    def add(kind, fld, **kw):
+        kw.setdefault("mult", None)
+        cases.append(mk_step(rng, kind, fld, **kw))
+
+    def aux(n, vals):
+        return dict(n=list(n), vals=[S(v) for v in vals])
+
+    # a1: two components, mapping not the identity onto the plane axes, no explicit labels
+    for mp in ([["a", "y"], ["b", "x"]], [["a", "x"], ["b", None]], [["a", "w"], ["b", "x"]]):
+        fld = fieldd((3, 2), 2, vdims=["a", "b"], mapping=mp)
+        add("vector", fld)
+        add("call", fld)
+    # a2: mpl() with an explicit multiplier that is not the automatic one
+    add("call", fieldd((3, 2), 3), mult=["si", -1])
+    add("call", fieldd((2, 3), 2), mult=["si", 1])
+    add("call", fieldd((3, 2), 3, p2=(40e-9, 20e-9), exact=False), mult=["si", -2])
+    add("vector", fieldd((3, 2), 3), mult=["si", -1])
+    # a3: filter values that are tiny but not zero (same and finer resolution)
+    tiny = [1e-9, 1e-8, -1e-9, 1e-300, 0.0, 1.0, -0.0, 3e-8, -1e-8, 1e-12, 2.5, 1e-7]
+    for kind in ("scalar", "contour", "lightness", "call"):
+        base = fieldd((3, 2), 1, vals=[F(k, 8) for k in (1, 9, 17, 25, 33, 41)], valid=[True] * 6)
+        add(kind, base, filter=aux((3, 2), tiny[:6]))
+        add(kind, base, filter=aux((6, 4), (tiny * 2)[:24]))
+    # b1: the two plotted directions carry different units
+    for un in (("s", "m"), ("m", "rad")):
+        add("scalar", fieldd((2, 2), 1, units=un))
+        add("contour", fieldd((2, 2), 1, units=un))
+        add("lightness", fieldd((2, 2), 1, units=un, vals=[F(k, 8) for k in (1, 9, 17, 25)]))
+        add("vector", fieldd((2, 2), 3, units=un))
+        add("call", fieldd((2, 2), 3, units=un))
+    # b2: colour field on another resolution with the same number of cells
+    for an in ((3, 5), (15, 1), (1, 15)):
+        add("vector", fieldd((5, 3), 3, valid=[True] * 15), use_color=True,
+            color_field=aux(an, [F(k * k + 1, 4) for k in range(15)]))
+    # b3: one non-empty scalar_kw dict reused by mpl() on fields with different masks / resolutions
+    for nv in (1, 3):
+        f1 = fieldd((3, 2), nv, valid=[True, False, True, True, True, False])
+        f2 = fieldd((2, 3), nv, valid=[False, True, True, True, False, True])
+        f3 = fieldd((3, 2), nv, valid=[True, True, False, False, True, True])
+        cases.append(dict(kind="seq", steps=[mk_step(rng, "call", f_, mult=None) for f_ in (f1, f2, f3)],
+                          shared=dict(scalar_kw={"cmap": "viridis"}, vector_kw={"width": 0.01}),
+                          share_ax=False, share_field=False))
+    # c1: lightness straight from a one-component field, twice, nothing changed in between
+    ang = fieldd((3, 2), 1, vals=[F(k, 8) for k in (3, 11, 19, 27, 35, 43)])
+    add("lightness", ang)
+    pl = mk_step(rng, "lightness", ang, mult=None)
+    del pl["field"]
+    cases.append(dict(kind="mutseq", field=ang, from3d=None,
+                      stages=[dict(edits=None, plots=[pl]), dict(edits=None, plots=[pl])]))
+    # c2: plot, change the validity in place, plot the same object again; and back
+    for nv, kinds in ((1, ["scalar", "contour"]), (1, ["lightness", "call"]), (3, ["vector", "call"]),
+                      (3, ["lightness"]), (2, ["vector"])):
+        vals = [F(k, 8) for k in (3, 11, 19, 27, 35, 43)] if nv == 1 else None
+        fld = fieldd((3, 2), nv, vals=vals, valid=[True] * 6)
+        pls = []
+        for kd in kinds:
+            st_ = mk_step(rng, kd, fld, mult=None, use_color=(kd == "vector" and nv == 3))
+            del st_["field"]
+            pls.append(st_)
+        e1 = dict(op="valid_item", i=1, j=0, val=False)
+        cases.append(dict(kind="mutseq", field=fld, from3d=None, stages=[
+            dict(edits=None, plots=pls), dict(edits=[e1], plots=pls),
+            dict(edits=[dict(e1, val=True), dict(op="valid_slice", axis=1, k=1, val=False)], plots=pls),
+            dict(edits=[dict(op="valid_not")], plots=pls)]))
+    # c3: four components WITH a mapping onto both plane axes must still be refused
+    f4 = fieldd((2, 2), 4, vdims=["a", "b", "c", "d"])
+    for kind in ("lightness", "call", "scalar", "contour"):
+        add(kind, f4)
+    # d1: lightness of 2-/3-component fields with invalid cells, default filter
+    add("lightness", fieldd((3, 2), 2, vals=[F(v, 4) for v in (3, 4, -4, 3, 5, 12, 0, 1, -8, 15, 6, -8)]))
+    add("lightness", fieldd((3, 2), 3))
+    add("lightness", fieldd((2, 3), 3, valid=[False] * 6))
+    # d2: contour with hidden cells must not write into the field
+    add("contour", fieldd((3, 3), 1))
+    add("contour", fieldd((3, 3), 1, valid=[True] * 9), filter=aux((3, 3), [1, 0, 1, 1, 1, 0, 2, 1, 1]))
+    # d3: anisotropic cells, imshow-based plots
+    for shp, p2 in (((2, 4), (8, 4)), ((4, 2), (4, 8)), ((3, 3), (3, 12))):
+        add("scalar", fieldd(shp, 1, p2=p2))
+        add("lightness", fieldd(shp, 1, p2=p2, vals=[F(3 + 5 * k, 8) for k in range(shp[0] * shp[1])]))
+        add("call", fieldd(shp, 3, p2=p2))
+    # e1: angle fields outside [0, 2 pi): arctan2 convention, negative, beyond a full turn
+    for angs in ((-3, F(-1, 2), F(1, 2), 3, F(-25, 8), F(25, 8)), (7, 10, F(-13, 2), -7, F(51, 4), 13),
+                 (F(1, 2), F(1, 2) + 0, -6, -5, 8, 9)):
+        add("lightness", fieldd((3, 2), 1, vals=[F(a) for a in angs], valid=[True] * 6))
+    add("lightness", fieldd((2, 2), 1, vals=[F(-2), F(-1), F(9), F(11)]), clim=[S(F(1, 4)), S(F(3, 4))])
+    # e2: explicit labels that pick another pair than the mapping does; automatic colour
+    f3 = fieldd((3, 2), 3, vdims=["a", "b", "c"])
+    for arg in (["a", "c"], ["c", "b"], ["c", None], ["b", "a"]):
+        add("vector", f3, vdims_arg=arg, use_color=True)
+    add("vector", fieldd((3, 2), 3, vdims=["a", "b", "c"], mapping=[]), vdims_arg=["b", "c"], use_color=True)
+    # e3: arrays that are not float64, with invalid cells: no arrow in an invalid cell
+    for dt in ("float32", "float16"):
+        for nv in (3, 2):
+            fld = fieldd((3, 2), nv, dtype=dt)
+            add("vector", fld, use_color=(nv == 3))
+            add("call", fld)
+        add("scalar", fieldd((3, 2), 1, dtype=dt))
+        add("contour", fieldd((3, 2), 1, dtype=dt))
+    # integer-typed fields (every plot kind but vector-lightness raises on HEAD): armed as soon as the
+    # finding is registered under TAG_INT in known_findings.json
+    if TAG_INT in known_ids():
+        for dt in ("int64", "int32"):
+            add("scalar", fieldd((3, 2), 1, vals=list(range(1, 7)), dtype=dt))
+            add("vector", fieldd((3, 2), 3, vals=list(range(1, 19)), dtype=dt))
+            add("call", fieldd((3, 2), 3, vals=list(range(1, 19)), dtype=dt))
+    return cases
+
+
 def generate(rng, tier):
     quick = tier == "quick"
     N = 1 if quick else 8
-    cases = []
+    cases = directed_core()          # identical in every run; the seeded random streams follow
+    if os.environ.get("C20_CORE_ONLY"):          # diagnostic: the directed core on its own
+        return cases
 
     def add(kind, fld, **kw):
         cases.append(dict(kind=kind, field=fld, mult=kw.pop("mult", gen_mult(rng, fld)), **kw))
@@ -254,6 +428,7 @@ def generate(rng, tier):
         fld = gen_field(rng, tier, nvdim=rng.choice([1, 2, 2, 2, 3, 3, 3, 3, 3]))
         uc = rng.random() < 0.7
         cf = gen_aux(rng, fld["n"], "colour") if (uc and rng.random() < 0.4) else None
+        narrow_dtype(rng, fld)
         add("vector", fld, vdims_arg=gen_vdims_arg(rng, fld), use_color=uc, color_field=cf)
     # lightness
     for _ in range(80 * N):
@@ -261,8 +436,9 @@ def generate(rng, tier):
         fld = gen_field(rng, tier, nvdim=nv, style=(rng.choice(["pyth", "pyth", "mags30"]) if nv == 2 else
                                                     rng.choice(["dyadic", "pyth", "mags30"]) if nv == 3 else
                                                     rng.choice(["dyadic", "decimal"])), nmax=4)
-        if nv == 1:   # hue angles in [0, 2 pi)
-            fld["vals"] = [S(F(rng.randint(0, 50), 8)) for _ in fld["vals"]]
+        if nv == 1:   # hue angles: [0, 2 pi), the arctan2 convention (-pi, pi], negative, beyond a full turn
+            lo_, hi_ = rng.choice([(0, 50), (0, 50), (-25, 25), (-60, 110), (-101, -1), (51, 150)])
+            fld["vals"] = [S(F(rng.randint(lo_, hi_), 8)) for _ in fld["vals"]]
         flt = gen_aux(rng, fld["n"], "filter") if rng.random() < 0.35 else None
         lf = gen_aux(rng, fld["n"], "light", odd_only=True) if rng.random() < 0.45 else None
         clim = rng.choice([None, None, [S(F(1, 4)), S(F(3, 4))], [S(0), S(F(1, 2))], [S(F(1, 8)), S(1)]])
@@ -271,6 +447,7 @@ def generate(rng, tier):
     for _ in range(60 * N):
         fld = gen_field(rng, tier, nvdim=rng.choice([1, 2, 3, 3, 3]))
         flt = gen_aux(rng, fld["n"], "filter") if rng.random() < 0.3 else None
+        narrow_dtype(rng, fld)
         add("call", fld, filter=flt)
     # thresholds of the default multiplier (exactly representable powers of ten) and single cells
     for e0, e1 in [(1, 1), (1, 999), (1000, 1), (1000, 1000), (999, 1000), (F(1999, 2), 1), (1, F(1, 2)),
@@ -321,17 +498,10 @@ def generate(rng, tier):
     VKW = [{"colorbar": False}, {"width": 0.01}, {"headwidth": 4.0}, {"use_color": False, "width": 0.02}]
 
     def step(kind, fld, **kw):
-        base = dict(filter=None, symmetric=False, filled=False, vdims_arg=None, use_color=False, color_field=None,
-                    lightness_field=None, clim=None, colorwheel=False)
-        base.update(kw)
-        return dict(kind=kind, field=fld, mult=base.pop("mult", gen_mult(rng, fld)), **base)
+        return mk_step(rng, kind, fld, **kw)
 
     def complete_vector_field(nv):
-        fld = gen_field(rng, tier, nvdim=nv)
-        labels = fld["vdims"] if fld["vdims"] is not None else ["x", "y", "z"][:nv]
-        other = [d for d in ["x", "y", "z", "a", "b", "w"] if d not in fld["dims"]][0]
-        fld["mapping"] = [[labels[k], (fld["dims"] + [other])[k]] for k in range(nv)]
-        return fld
+        return complete_vector(rng, tier, nv)
 
     for _ in range(36 * N):
         # (a) one scalar_kw / vector_kw pair reused by mpl() on different fields
@@ -489,7 +659,12 @@ def build_field(fd):
     arr = np.array([fl(v) for v in fd["vals"]], dtype=float).reshape(*fd["n"], fd["nvdim"])
     valid = np.array(fd["valid"], dtype=bool).reshape(*fd["n"])
     mp = None if fd["mapping"] is None else {k: v for k, v in fd["mapping"]}
-    return df.Field(mesh, nvdim=fd["nvdim"], value=arr, vdims=fd["vdims"], vdim_mapping=mp, valid=valid)
+    kwd = {}
+    if fd.get("dtype"):
+        dt = np.dtype(fd["dtype"])
+        arr = arr.astype(dt)
+        kwd["dtype"] = dt
+    return df.Field(mesh, nvdim=fd["nvdim"], value=arr, vdims=fd["vdims"], vdim_mapping=mp, valid=valid, **kwd)
 
 
 def build_aux(fd, ad):
@@ -734,6 +909,18 @@ def apply_edit(f, e, parent=None):
     return f
 
 
+ALLOWED = {TAG_FILTER: {"invalid-cell-drawn"}, TAG_INT: {"valid-field-refused"}}
+
+
+def guard_tags(oracle, tags):
+    """a known finding excuses exactly its own clause: a record that violates anything else is
+    reported untagged, so that a known entry can never swallow another clause"""
+    ok = set()
+    for t in tags:
+        ok |= ALLOWED.get(t, set())
+    return sorted(set(tags)) if set(oracle) <= ok else []
+
+
 def run_mutseq(c):
     """used, then changed in place, then used again: every picture is modelled on the state the
     field reports at the time of the call"""
@@ -776,8 +963,7 @@ def run_mutseq(c):
     plt.close("all")
     oracle = sorted({cl for r in recs for cl in r["oracle"]})
     tags = sorted({t for r in recs for t in r["tags"]})
-    if tags and oracle != ["invalid-cell-drawn"]:
-        tags = []
+    tags = guard_tags(oracle, tags)
     return dict(kind="mutseq", case=c, oracle=oracle, tags=tags,
                 obs=dict(status="/".join(r["obs"]["status"] for r in recs), edits=edits_done,
                          steps=[r["obs"] for r in recs]),
@@ -816,8 +1002,7 @@ def run_case(c):
     plt.close("all")
     oracle = sorted({cl for r in recs for cl in r["oracle"]})
     tags = sorted({t for r in recs for t in r["tags"]})
-    if tags and oracle != ["invalid-cell-drawn"]:
-        tags = []
+    tags = guard_tags(oracle, tags)
     return dict(kind="seq", case=c, oracle=oracle, tags=tags,
                 obs=dict(status="/".join(r["obs"]["status"] for r in recs), steps=[r["obs"] for r in recs]),
                 coq="[" + "; ".join(r["coq"] for r in recs) + "]",
@@ -927,6 +1112,11 @@ def run_step(c, ctx):
         rev_ = {v: k for k, v in f.vdim_mapping.items()}
         if all(rev_.get(d) in (f.vdims or []) for d in f.mesh.region.dims):
             rec["oracle"].append("valid-field-refused")
+
+    if (not accepted and wellformed and fd["nvdim"] <= 3 and str(fd.get("dtype") or "").startswith("int")
+            and kind != "contour"):
+        rec["oracle"].append("valid-field-refused")
+        rec["tags"].append(TAG_INT)
 
     # effective multiplier (for the oracle)
     m_eff = None
@@ -1242,10 +1432,7 @@ def run_step(c, ctx):
         plt.close("all")
     rec["oracle"] = sorted(set(rec["oracle"]))
     rec["tags"] = sorted(set(rec["tags"]))
-    if rec["tags"] and rec["oracle"] != ["invalid-cell-drawn"]:
-        # the known finding excuses exactly that clause; a record that violates anything else is
-        # reported untagged, so that the known entry can never swallow another clause
-        rec["tags"] = []
+    rec["tags"] = guard_tags(rec["oracle"], rec["tags"])
     flt_cls = "none" if c.get("filter") is None else ("same" if c["filter"]["n"] == fd["n"] else "other")
     mcls = "default" if mu is None else f"{mu[0]}{mu[1] if mu[0] == 'si' else ''}"
     mp_cls = "default" if fd["mapping"] is None else "/".join(f"{k}>{v}" for k, v in fd["mapping"])
